@@ -167,7 +167,15 @@ impl NodeDrive {
                             value.key_disk_addr,
                         );
                     } else {
+                        // The key is not copied to the new files, forget it as well: its disk
+                        // position points into the old keys file
                         log::debug!("To reclame_space nothing need to be done on delete");
+                        let mut map = db.map.write().unwrap();
+                        if let Some(current) = map.get(&key) {
+                            if current.state == ValueStatus::Deleted {
+                                map.remove(&key);
+                            }
+                        }
                     }
                 }
             }
